@@ -77,6 +77,17 @@ def correspondence(ctx):
         ctx.count('board:%s' % ['slave', 'dewar', 'switch', 'lna'][tag])
         if executed:
             ctx.nontriv(term)
+    from simulators.receiver import DEFINITIONS as DEF
+    for i in range(ctx.n(24, 300)):
+        tag = i % 4
+        amin, amax = rng.choice([(1, 1), (1, 2), (0x7D, 0x7E)])
+        feeds = rng.choice([1, 2, 7, 19])
+        g = H.Gen(rng, DEF, tag)
+        stream = H.scenario_stream(rng, DEF, g, tag, list(range(amin, amax + 1)))
+        term, _ = H.run_history(ctx, rng, len(stream), tag, amin, amax, feeds, stream=stream)
+        cases.append(term)
+        ctx.count('scenario:%s' % ['slave', 'dewar', 'switch', 'lna'][tag])
+        ctx.nontriv(term)
     ctx.sample(cases[-1][:600] + ' ...')
     ctx.run_cases('receiver', 'From DS Require Import Corr.RcvCorr.', 'rcase', 'ok', cases,
                   show='show', shard=ctx.n(10, 40))
@@ -140,6 +151,14 @@ def check_request(ctx, S, DEF, system, g, a, hist):
             if len(frames) != 1 or frames[0]['slave'] != sa:
                 bad('unicast_once', 'a request to an existing board is not answered exactly once by that board',
                     reply=reply, outcome=tag)
+            # the inquiry record holds the command that was received (the model proves it: classify_code_sweep)
+            if len(frames) == 1 and a['good'] is True and a['kind'] not in ('INQUIRY', 'RESET'):
+                key = chr(a['p'][0]) if (a['kind'] == 'SET_ADDR' and frames[0]['code'] == 0) else chr(sa)
+                brd = after_sys.slaves.get(key)
+                if brd is None or (ord(brd.last_cmd), ord(brd.last_cmd_id), ord(brd.last_cmd_answer)) != \
+                        (code, a['cid'], frames[0]['code']):
+                    bad('inquiry_record', 'the inquiry record of the board does not hold the command, id and '
+                        'answer code of the request it just executed')
             moved = [k for k, _ in after if k not in keys]
             for (k, r) in before:
                 if k != sa and dict(after).get(k) != r:
